@@ -449,8 +449,15 @@ func checkC11(c *core.Ctx) {
 	for _, hs := range []struct {
 		sdl  string
 		docs []string
-	}{{detSDL, detDocs}, {handRuleSDL, handRuleDocs}, {sharedDupSDL, sharedDupDocs}} {
+	}{{detSDL, detDocs}, {handRuleSDL, handRuleDocs}, {sharedDupSDL, sharedDupDocs}, {sharedDupSDL, nil}} {
 		var calls []sharedCall
+		if hs.docs == nil {
+			// formatters only, with every option set in turn: whatever a formatter does to lay out one configuration
+			// (descriptions off, built-ins on) happens while other goroutines read the same schema
+			for i := 0; i < 32; i++ {
+				calls = append(calls, sharedCall{Op: "format", Query: []string{"nodesc", "", "builtin", "nodesc"}[i%4]})
+			}
+		}
 		for i, q := range hs.docs {
 			if i%25 == 24 || (i%3 == 1 && len(hs.docs) < 40) {
 				calls = append(calls, sharedCall{Op: "format", Query: []string{"", "nodesc", "", "builtin"}[(i/3)%4]})
